@@ -518,6 +518,11 @@ def gen_directive_src(rng):
     """random single-var sources from a small alphabet (the malformed stream)"""
     toks = ["a", "b", "x", "\"a b\"", "`c.txt`", "d", "all:d", "*.txt", "nosuch", "\"a\"", "'a'", "a\u00a0b", "\"a\"\"b\"",
             "`a`x", "\"a", ".", "d/f", "\"d/f\"", "  ", " ", "w", "w", "all:w", "cache", "all:cache", "w/*", "w/s", "all:d", "all:c.txt"]
+    if rng.random() < 0.4:
+        # an all: pattern next to plain patterns over directories with dot/underscore entries, in every order
+        seq = rng.choice([["all:%s", "%s"], ["%s", "all:%s"], ["%s", "all:%s", "%s"], ["all:%s", "%s", "%s"], ["all:%s", "%s", "all:%s"]])
+        pool = ["d", "w", "cache", "w/s", "w/*", "c.txt", "a", "*.txt", "d/f", "w/i", "?"]
+        return "//go:embed " + " ".join(t % rng.choice(pool) for t in seq) + "\nvar V embed.FS\n"
     line = "//" + rng.choice(["", "", "", "", " "]) + "go:embed" + rng.choice([" ", " ", "  ", ""])
     line += " ".join(rng.choice(toks) for _ in range(rng.randint(0, 3)))
     tail = rng.choice(["\nvar V embed.FS\n", "\nvar V embed.FS\n", "\nvar V embed.FS\n", "\n\nvar V embed.FS\n", "\nvar (\n\tV embed.FS\n)\n"])
@@ -740,8 +745,9 @@ def run(ctx, args):
         return replay(ctx, args.replay)
     rng = ctx.rng
     quick = ctx.tier == "quick"
-    n_trees = 260 if quick else 2500
-    n_dir_rand = 40 if quick else 400
+    n_trees = 200 if quick else 2200
+    n_state = 90 if quick else 900
+    n_dir_rand = 60 if quick else 500
     n_fn = 1500 if quick else 30000
 
     st = lean_check(ctx, ["LlgoVerif.Props.C16"], ["LlgoVerif/Props/C16.lean"],
@@ -804,6 +810,19 @@ def run(ctx, args):
     add_tree_case("p%04d" % len(cases), fold, [b"README", b"readme"], "case-insensitive collision between embedded files")
     add_tree_case("p%04d" % len(cases), fold, [b"P.Go"], "case-insensitive collision with a Go file")
     add_tree_case("p%04d" % len(cases), fold, [b"sub", b"README"], "no collision: sub/P.GO differs from p.go by its directory")
+    # stored corpus (corpus/C16/*.json): minimised inputs of past misses, always run
+    cdir = os.path.join(VERIF, "corpus", "C16")
+    if os.path.isdir(cdir):
+        for fn in sorted(os.listdir(cdir)):
+            if fn.endswith(".json"):
+                for cc in json.load(open(os.path.join(cdir, fn)))["cases"]:
+                    pl = [bytes.fromhex(h) for h in cc["patterns_hex"]] if "patterns_hex" in cc else [x.encode() for x in cc["patterns"]]
+                    add_tree_case("p%04d" % len(cases), tree_from_json(cc["tree"], outside), pl, "corpus %s: %s" % (fn, cc.get("note", "")))
+    n_corpus = len(cases)
+    # lists in which per-pattern state (all:, file/directory, glob/literal) must not leak into the next pattern
+    for i in range(n_state):
+        ch, pl, note = gen_state_carry(rng, outside)
+        add_tree_case("p%04d" % len(cases), ch, pl, note)
     base = len(cases)
     for i in range(n_trees):
         ch = gen_dir(rng, 1, top=True, outside=outside)
@@ -1201,6 +1220,18 @@ def run(ctx, args):
         for _, n in all_paths(c["tree"], through_links=False):
             nkinds[n.kind] = nkinds.get(n.kind, 0) + 1
     stats["nodes-by-kind (f=file d=dir l=symlink i=fifo)"] = nkinds
+    def _all_then_plain(pl):
+        seen_all = False
+        for q in pl:
+            if q.startswith(b"all:"):
+                seen_all = True
+            elif seen_all:
+                return True
+        return False
+    stats["corpus-cases (in code + corpus/C16)"] = n_corpus
+    stats["state-carry lists (a pattern of one kind followed by a different kind)"] = n_state
+    stats["lists with an all: pattern followed by a plain pattern"] = sum(1 for c in cases if _all_then_plain(c["pats"]))
+    stats["lists with a plain pattern followed by an all: pattern"] = sum(1 for c in cases if _all_then_plain([b"all:x" if not q.startswith(b"all:") else b"x" for q in c["pats"]]))
     stats["patterns-with-all"] = sum(1 for c in cases for p in c["pats"] if p.startswith(b"all:"))
     stats["patterns-with-glob"] = sum(1 for c in cases for p in c["pats"] if re.search(rb"[*?\[]", p))
     ctx.coverage["samples"] = [lr[0], lm[0], {"real": r_tree[0], "model": m_tree[0], "go_list": g_result(G[cases[0]["name"]])},
